@@ -75,6 +75,43 @@ func runCheck(repo, verif, prop, tier string, t0 time.Time) (int, error) {
 	if err != nil {
 		return 2, err
 	}
+	// propmap.json is derived from the `tags` lines by a tool; a list that was not regenerated after a tag was added
+	// would silently leave a function out. Every function whose own contract carries this property's tag is checked
+	// whether the list names it or not (trusted / inline contracts and interface contracts have no body to verify).
+	listed := map[string]bool{}
+	for _, n := range pe.Functions {
+		if j := strings.Index(n, "@"); j >= 0 {
+			n = n[:j]
+		}
+		listed[n] = true
+	}
+	var addedByTag []string
+	for _, c := range prog.specs.Contracts {
+		if c.Pkg == "" || c.Lib || c.Trusted || c.Inline || !hasTag(c.Tags, prop) {
+			continue
+		}
+		pk := prog.pkgs[c.Pkg]
+		if pk == nil {
+			continue
+		}
+		key := c.Key
+		if j := strings.LastIndex(key, "$"); j >= 0 {
+			key = key[:j]
+		}
+		if f, _ := prog.lookupFunc(pk.Types.Name(), key); f == nil {
+			continue
+		}
+		name := pk.Types.Name() + "." + c.Key
+		if !listed[name] {
+			listed[name] = true
+			addedByTag = append(addedByTag, name)
+		}
+	}
+	sort.Strings(addedByTag)
+	if len(addedByTag) > 0 {
+		fmt.Fprintf(os.Stderr, "propmap.json is stale: %d functions tagged %s are not listed and were added: %s\n", len(addedByTag), prop, strings.Join(addedByTag, " "))
+		pe.Functions = append(pe.Functions, addedByTag...)
+	}
 	funcs, err := prog.findFuncs(pe.Functions)
 	if err != nil {
 		// a contracted function disappeared: the property's proof no longer applies
@@ -85,6 +122,13 @@ func runCheck(repo, verif, prop, tier string, t0 time.Time) (int, error) {
 		return 2, err
 	}
 	defer os.RemoveAll(dir)
+	var frameObls []effectObl
+	if pe.IOFrame != nil {
+		frameObls = prog.checkIOFrame(pe.IOFrame)
+		if len(frameObls) == 0 {
+			return 2, fmt.Errorf("vacuity: no frame obligations generated for %s", prop)
+		}
+	}
 
 	var obls, covers []*Obligation
 	perFunc := map[string]int{}
@@ -288,6 +332,30 @@ func runCheck(repo, verif, prop, tier string, t0 time.Time) (int, error) {
 		os.WriteFile(rp, b, 0o644)
 		lines = append(lines, fmt.Sprintf("VIOLATION property=%s replay=%s no-failing-input-found", prop, rp))
 	}
+	frameDischarged := 0
+	for _, o := range frameObls {
+		fn := o.Name[:strings.Index(o.Name, "#")]
+		perFunc[fn]++
+		if o.OK {
+			frameDischarged++
+			byBackend["govc-effect-checker (no SMT)"]++
+			continue
+		}
+		if k, ok := knownSet[o.Name]; ok {
+			knownHit = append(knownHit, o.Name)
+			lines = append(lines, fmt.Sprintf("KNOWN-FINDING: property=%s %s %s", prop, o.Name, k.What))
+			continue
+		}
+		violations++
+		exit = 1
+		os.MkdirAll(replayDir, 0o755)
+		rp := filepath.Join(replayDir, sanitize(o.Name)+".json")
+		b, _ := json.MarshalIndent(map[string]string{"property": prop, "obligation": o.Name, "position": o.Pos, "detail": o.Detail,
+			"outcome": "no-model", "verifier_output": "frame obligation (syntactic, go/types): the forbidden reference occurs at " + o.Pos + ": " + o.Detail}, "", " ")
+		os.WriteFile(rp, b, 0o644)
+		lines = append(lines, fmt.Sprintf("VIOLATION property=%s replay=%s no-failing-input-found", prop, rp))
+	}
+	discharged += frameDischarged
 	// dedupe known-finding lines by stable obligation name
 	seenLine := map[string]bool{}
 	for _, l := range lines {
@@ -353,8 +421,9 @@ func runCheck(repo, verif, prop, tier string, t0 time.Time) (int, error) {
 		}
 	}
 	coverage := map[string]interface{}{
-		"obligations":              len(obls),
+		"obligations":              len(obls) + len(frameObls),
 		"discharged":               discharged,
+		"frame_obligations":        len(frameObls),
 		"checker_cmd":              fmt.Sprintf("/verif/bin/govc check --property %s --tier %s", prop, tier),
 		"trusted_base":             tb,
 		"functions_under_contract": funcsCov,
@@ -386,7 +455,7 @@ func runCheck(repo, verif, prop, tier string, t0 time.Time) (int, error) {
 		return 2, err
 	}
 	fmt.Printf("property=%s tier=%s obligations=%d discharged=%d known=%d violations=%d functions=%d wall=%.1fs\n",
-		prop, tier, len(obls), discharged, len(knownHit), violations, len(perFunc), time.Since(t0).Seconds())
+		prop, tier, len(obls)+len(frameObls), discharged, len(knownHit), violations, len(perFunc), time.Since(t0).Seconds())
 	return exit, nil
 }
 
